@@ -106,12 +106,50 @@ def norm_result(rec, r):
     raise ValueError(fn)
 
 
+def same_function(a, b, sg=1.0):
+    """two profiles denote the same function (C06 pins the multivariate profile pointwise, not its
+    representation): pwc / pwl by both one-sided limits at the breakpoints of either; discrete by
+    the summed (value, multiplicity) per event time, edge entries by position only"""
+    if a[0] != b[0]:
+        return False
+    if not (close(a[1][0], b[1][0], sg) and close(a[1][-1], b[1][-1], sg)):
+        return False
+    if a[0] == "disc":
+        def events(p):
+            d = {}
+            for x, y, m in list(zip(p[1], p[2], p[3]))[1:-1]:
+                k = round(float(x) / sg, 9)
+                u = d.get(k, (0.0, 0.0))
+                d[k] = (u[0] + y, u[1] + m)
+            return d
+        ea, eb = events(a), events(b)
+        return set(ea) == set(eb) and all(close(ea[k][0], eb[k][0]) and close(ea[k][1], eb[k][1]) for k in ea)
+    def lims(p, t, right):
+        x = p[1]
+        y1 = p[2]
+        y2 = p[3] if p[0] == "pwl" else p[2]
+        n = len(x) - 1
+        if right:
+            k = max(i for i in range(n) if x[i] <= t + 1e-12 * max(sg, abs(t)))
+        else:
+            k = min(i for i in range(n) if t <= x[i + 1] + 1e-12 * max(sg, abs(t)))
+        return y1[k] + (y2[k] - y1[k]) * (t - x[k]) / (x[k + 1] - x[k])
+    pts = sorted(set(list(a[1]) + list(b[1])))
+    for t in pts[:-1]:
+        if not close(lims(a, t, True), lims(b, t, True)):
+            return False
+    for t in pts[1:]:
+        if not close(lims(a, t, False), lims(b, t, False)):
+            return False
+    return True
+
+
 def equal_results(p, q, sg=1.0):
     if p[0] != q[0]:
         return False
     t, a, b = p[0], p[1], q[1]
     if t == "profile":
-        return same_profile(a, b, sg)
+        return same_profile(a, b, sg) or same_function(a, b, sg)
     if t == "scalar":
         return close(a, b)
     if t == "matrix":
@@ -272,9 +310,30 @@ def chk_multi_avg(rec, be):
     out = []
     n = 0
     fn = rec["call"]["fn"]
-    for sg in (1.0, 2.0 ** 10):
+    variants = [(1.0, None), (2.0 ** 10, None)]
+    if fr(rec["mrts"]) == 0:
+        variants.append((1.0, "auto"))       # the same identity with the automatic threshold
+    for sg, mode in variants:
         sts = trains_of(rec, sg)
         forms = [f for f in forms_for(rec) if f in ("idx", "sub", "bi")]
+        if mode == "auto":
+            sub = "%s[%s,MRTS='auto']" % (API[fn], be)
+            for form in forms:
+                st, v = call(invoke_mrts, rec, sts, form if form != "bi" else "sub", sg, "auto")
+                prec = dict(rec)
+                prec["call"] = dict(rec["call"], fn=PROFILE_OF[fn], iv=0)
+                st2, p = call(invoke_mrts, prec, sts, form if form != "bi" else "sub", sg, "auto")
+                n += 1
+                if st != "ok" or st2 != "ok":
+                    out.append(_mm(sub, "%s %s raised %s / %s" % (sub, hdr(rec), v if st != "ok" else "", p if st2 != "ok" else "")))
+                    continue
+                iv = kwargs_of(rec, sg).get("interval")
+                st3, a = call(lambda: p.avrg(iv) if iv is not None else p.avrg())
+                if st3 != "ok":
+                    out.append(_mm(sub, "%s %s: profile.avrg raised %s" % (sub, hdr(rec), a)))
+                elif not close(v, a):
+                    out.append(_mm(sub, "%s %s [%s]: scalar %r, average of the profile %r" % (sub, hdr(rec), form, v, a), float(v), float(a)))
+            continue
         for form in forms:
             st, v = call(invoke, rec, sts, form, sg)
             n += 1
